@@ -194,6 +194,8 @@ def function_level_inputs(tier):
         stems += [list(t) for t in itertools.product(sub, repeat=3)]
     w4 = words("ht:/", 4)
     stems += [list(t) for t in itertools.product(w4, repeat=2)]
+    w5 = words("h:/", 5)
+    stems += [list(t) for t in itertools.product(w5, repeat=2)]
     det = list(dict.fromkeys(det))
     lcp = list(dict.fromkeys(lcp))
     stems = [list(t) for t in dict.fromkeys(tuple(x) for x in stems)]
@@ -791,7 +793,8 @@ def run(tier, seed, replay=None):
             else:
                 spec_fail.append(("stem %r for instance ids %r; the property asks for %r (root cause %s, in C17_dom: %s)" % (
                     a[1], ids, spec_stem(ids), rc, dom), {"kind": "stem", "ids": ids}))
-        cov.update({"function_level": {"determine_inputs": len(det), "lcp_pairs": len(lcp), "fold_id_lists": len(stems),
+        cov.update({"function_level": {"determine_inputs": len(det), "determine_inputs_accepted": sum(1 for x in i_det if x is not None),
+                                       "lcp_pairs": len(lcp), "fold_id_lists": len(stems),
                                        "id_lists_outside_quantifier(% ids)": out_q, "id_lists_in_C17_dom": n_dom,
                                        "id_lists_with_a_stem": n_nontrivial}})
 
@@ -876,7 +879,7 @@ def run(tier, seed, replay=None):
                 "string of length <= %d/%d over it through _determine_suitable_iri_pattern; all ordered pairs of strings of "
                 "length <= 3 over that alphabet and of length <= %d over {h,:} through longest_common_prefix; all ordered "
                 "triples/pairs of strings of length <= 3 over {%%,h,:}, all ordered pairs (and %s ordered triples) of %d "
-                "structured ids (scheme prefix x tail) and all ordered pairs of strings of length <= 4 over {h,t,:,/} "
+                "structured ids (scheme prefix x tail) and all ordered pairs of strings of length <= 4 over {h,t,:,/} and <= 5 over {h,:,/} "
                 "through the real _update_shape_min_iri fold + _determine_suitable_iri_pattern.  Distinct by construction.  "
                 "Non-trivial = id lists for which a stem is printed + end-to-end printed-stem, shape-example and "
                 "constraint-example checks.  End to end: %d random graphs x %d configurations (detect_minimal_iri x "
